@@ -189,6 +189,12 @@ def z_eq(interp, st, a, b):
         if isinstance(o, SV) and isinstance(o.ty, Opt):
             return o.ty.is_none(o.z)
         return z3.BoolVal(False)
+    if isinstance(a, PyRef) and isinstance(b, PyRef) and a.kind == b.kind == 'dict' and st is not None:
+        # two concrete-shaped dicts: equal iff same keys and equal values
+        da, db = st.store[a.id], st.store[b.id]
+        if set(da) != set(db):
+            return z3.BoolVal(False)
+        return z3.And(*[z_eq(interp, st, da[k], db[k]) for k in da]) if da else z3.BoolVal(True)
     if isinstance(a, SV) or isinstance(b, SV):
         sa, sb = (a if isinstance(a, SV) else None), (b if isinstance(b, SV) else None)
         if isinstance(a, (tuple, PyRef, Obj)) or isinstance(b, (tuple, PyRef, Obj)):
@@ -420,6 +426,13 @@ def to_ty(interp, st, v, ty):
             r = new_heap(st, cls)
             for k, fv in c.items():
                 st.heap.write(cls, k, r.z, to_ty(interp, st, fv, cls.fields[k]).z)
+        elif kind == 'dict' and v.kind == 'dict':
+            r = new_dict(st, cls.kt, cls.vt)
+            for k, fv in c.items():
+                zk = to_ty(interp, st, k, cls.kt).z
+                st.heap.write(cls, 'has', r.z, z3.Store(st.heap.read(cls, 'has', r.z), zk, z3.BoolVal(True)))
+                st.heap.write(cls, 'val', r.z, z3.Store(st.heap.read(cls, 'val', r.z), zk, to_ty(interp, st, fv, cls.vt).z))
+                st.heap.write(cls, 'n', r.z, st.heap.read(cls, 'n', r.z) + 1)
         else:
             raise Unsupported(f'cannot intern {v.kind} as {cls.name}')
         st.store[v.id] = r          # forward: later uses of the PyRef see the heap object
@@ -680,6 +693,10 @@ def clamp_slice(lo, hi, n):
 
 def getslice(interp, st, v, lo, hi, step):
     v = resolve(st, v)
+    if isinstance(v, Unknown):
+        v.note(interp, st)
+        yield st, Unknown(v.name + '[:]', v.owner)
+        return
     if step is not None:
         raise Unsupported('slice step')
     lo, hi = unwrap_opt(interp, st, lo, 'slice'), unwrap_opt(interp, st, hi, 'slice')
@@ -776,6 +793,12 @@ def setitem(interp, st, o, idx, v):
         return
     if isinstance(o, SV) and hasattr(o.ty, 'setitem'):
         yield from o.ty.setitem(interp, st, o, idx, v)
+        return
+    if isinstance(o, SV) and isinstance(o.ty, sym.Opaque):
+        # a store into an object the sidecar treats as opaque: recorded (sidecars that promise "passed through untouched"
+        # look for it); later reads of the object stay uninterpreted
+        st.emit('opaque_item_store', target=o, key=idx, value=v)
+        yield st, None
         return
     raise Unsupported(f'item store on {o!r}')
 
@@ -876,6 +899,9 @@ def unpack(interp, st, v, n):
         return [SV(cls.elem, z3.Select(arr, i)) for i in range(n)]
     if isinstance(v, SV) and hasattr(v.ty, 'unpack'):
         return v.ty.unpack(interp, st, v, n)
+    if isinstance(v, Unknown):
+        v.note(interp, st)
+        return [Unknown(f'{v.name}[{i}]', v.owner) for i in range(n)]
     raise Unsupported(f'unpack of {v!r}')
 
 
